@@ -37,10 +37,10 @@ func vh_C15_Handler_Post() {
 func vh_C15_Actor_Send() {
 	got := 0
 	a := ActorNewGenerics(func(self *ActorDef[int], m int) { got++ })
-	c15Race(func() { a.Send(1) }, func() { a.Close() })
+	c15Race(func() { a.Send(vfInt("msg")) }, func() { a.Close() })
 	vfAssert("processed-at-most-once", got <= 1)
 	before := got
-	a.Send(2)
+	a.Send(vfInt("msg"))
 	vfQuiesce()
 	vfAssert("send-after-close-dropped", got == before)
 	vfAssert("isclosed", a.IsClosed())
@@ -50,7 +50,7 @@ func vh_C15_Actor_Send() {
 func c15Queue() *BufferedChannelQueue[int] {
 	q := NewBufferedChannelQueue[int](1, vfRange("bufmax", 0, 1), 1)
 	if vfChoose("prefilled", 2) == 1 {
-		q.Offer(7)
+		q.Offer(vfInt("item"))
 	}
 	return q
 }
@@ -58,10 +58,10 @@ func c15Queue() *BufferedChannelQueue[int] {
 func vh_C15_Queue_Offer() {
 	q := c15Queue()
 	var err error
-	c15Race(func() { err = q.Offer(1) }, func() { q.Close() })
+	c15Race(func() { err = q.Offer(vfInt("item")) }, func() { q.Close() })
 	vfAssert("error-kind", err == nil || err == ErrQueueIsClosed || err == ErrQueueIsFull)
-	vfAssert("offer-after-close-reports-closed", q.Offer(2) == ErrQueueIsClosed)
-	vfAssert("put-after-close-reports-closed", q.Put(2) == ErrQueueIsClosed)
+	vfAssert("offer-after-close-reports-closed", q.Offer(vfInt("item")) == ErrQueueIsClosed)
+	vfAssert("put-after-close-reports-closed", q.Put(vfInt("item")) == ErrQueueIsClosed)
 	vfAssert("isclosed", q.IsClosed())
 	vfReach("end")
 }
@@ -128,24 +128,25 @@ func vh_C15_Queue_GetChannel() {
 // the loader / free-node goroutines race with Close as well: items are buffered so that they have work to do
 func vh_C15_Queue_LoaderVsClose() {
 	q := NewBufferedChannelQueue[int](1, 2, 0)
-	q.Offer(1)
-	q.Offer(2) // buffered: wakes the loader
-	q.Offer(3)
+	q.Offer(vfInt("item"))
+	q.Offer(vfInt("item")) // buffered: wakes the loader
+	q.Offer(vfInt("item"))
 	c15Race(func() { q.Poll() }, func() { q.Close() })
 	vfReach("end")
 }
 
 func vh_C15_Cor_YieldFrom() {
+	yielded, request := vfInt("yielded"), vfInt("request")
 	var target, caller *CorDef[int]
 	got := -1
 	served := vfChoose("target-serves", 2) == 1
 	target = CorNewGenerics[int](func() {
 		if served {
-			target.YieldRef(5)
+			target.YieldRef(yielded)
 		}
 		// returning closes the coroutine, possibly while the caller is inside YieldFrom
 	})
-	caller = CorNewGenerics[int](func() { got = caller.YieldFrom(target, 1) })
+	caller = CorNewGenerics[int](func() { got = caller.YieldFrom(target, request) })
 	target.Start()
 	caller.Start()
 	vfQuiesce()
@@ -153,7 +154,7 @@ func vh_C15_Cor_YieldFrom() {
 	// whether or not its request was served, the caller is not left blocked on a finished target
 	vfAssert("caller-released-when-target-completes", caller.IsDone())
 	if served {
-		vfAssert("served-request-got-its-answer", got == 5 || got == 0)
+		vfAssert("served-request-got-its-answer", vfOr(got == yielded, got == 0))
 	}
 	// a request that begins after the target finished returns without blocking
 	done := false
